@@ -799,6 +799,12 @@ theorem h1_protocol_error_total (cfg : H11.Cfg) (st : H11.St) (o0 : List H11.Out
 
 end H1
 
+/-- `H2Protocol.initiate` (h2c upgrade): the send task is spawned before the upgrade request is handed to a stream, so a stream
+    that answers by itself (404 / 400) and waits for its response to be written is not waiting for a task that does not exist
+    yet (F82: the reader stayed inside `initiate` for ever); and the stream is not looked up with `[]` afterwards (it may have
+    closed itself).  Liveness itself is judged by the `connection_stuck` monitor; this guard re-opens when the order changes. -/
+theorem h2_initiate_guard : C04Sites.h2InitiateSpawnFirst = true ∧ C04Sites.h2InitiateStreamLookupGuarded = true := by decide
+
 /-- the one place where WSStream answers early data is the state the source names (F40): the Ws model's branch is tied
     to it -/
 theorem ws_early_data_guard : C04Sites.wsEarlyDataAnsweredIn = "HANDSHAKE" ∧ C04Sites.wsSendEvent = ["wsproto.LocalProtocolError"] ∧
